@@ -25,8 +25,11 @@ PROPERTY = {
                    "optionally the run is stopped at a breakpoint after the site was executed and the HOST rewrites a byte of a "
                    "site through vm.set_mem before the run continues. Under 5 configurations (back end, block length 1..50, "
                    "per-call limit) the final registers, flags, data, stack, code page and exception flags equal those of the "
-                   "reference run, in which every instruction is decoded from the memory as it is when it executes. Bounded: "
-                   "exploration, not proof.",
+                   "reference run, in which every instruction is decoded from the memory as it is when it executes. A second family "
+                   "(host-history) runs ONE jitter 4..8 times over a three-way dispatch program, the host rewriting between the runs "
+                   "the displacement of a short jump followed by never-translated bytes (the last byte of a translated region) or "
+                   "an immediate byte of a block on or off the current path; every run must end as a fresh jitter on the same "
+                   "bytes does. Bounded: exploration, not proof.",
     "rule": "one case = one self-modifying program and initial state: reference + 5 configurations",
     "trusted_base": ["CPython, gcc; the reference is the same jitter with translation ahead removed; generator and comparison are "
                      "written in props/jitrun.py / props/C22.py"],
@@ -142,6 +145,99 @@ class SmcCases(BoundedContract):
         return (True, "", patched)
 
 
+HIST_TEXT = """
+main:
+    MOV EBX, 0x%x
+jsite:
+    JMP A
+    NOP
+    NOP
+    NOP
+A:
+    ADD EBX, 0x%x
+    RET
+B:
+    XOR EBX, 0x%x
+    RET
+C:
+    SUB EBX, 0x%x
+    RET
+"""
+
+
+class HistoryCases(BoundedContract):
+    """several complete runs of ONE jitter, the host rewriting a byte of the code between them: the displacement of a short jump
+    that is followed by never-translated bytes (the last byte of a translated region), or an immediate byte of a block that is on or
+    off the current path"""
+    BOUND = "seeded family of host-write histories over a three-way dispatch program (props/C22.py)"
+    CASE_SECONDS = 300
+
+    def funcs(self):
+        jitrun.build_exts()
+        from miasm.jitter.jitcore import JitCore
+        return [JitCore.updt_automod_code_range, JitCore.updt_automod_code, JitCore.del_block_in_range, JitCore.add_block_to_mem_interval]
+
+    def cases(self):
+        return list(range(48 if self.tier == "quick" else 600))
+
+    def gen(self, case):
+        rng = random.Random(22000 + case)
+        imms = [0x01010101 * rng.randint(1, 9) + rng.getrandbits(8) for _ in range(4)]
+        text = HIST_TEXT % tuple(imms)
+        hist = []
+        for _ in range(rng.randint(3, 7)):
+            if rng.random() < 0.5:
+                hist.append(("jmp", rng.choice("ABC")))
+            else:
+                hist.append(("imm", rng.choice("ABC"), rng.randrange(4), rng.getrandbits(8)))
+        return rng, text, imms, hist
+
+    def show(self, case):
+        rng, text, imms, hist = self.gen(case)
+        return "history #%d: constants %s, rounds %s" % (case, [hex(x) for x in imms], hist)
+
+    def check(self, case):
+        rng, text, imms, hist = self.gen(case)
+        code, labels, instrs = jitrun.assemble(text)
+        if code[labels["jsite"] - jitrun.CODE] != 0xEB:
+            return (False, "harness: the dispatch jump is not a short jump", True)
+        st = jitrun.init_state(rng)
+        cfg = {"backend": rng.choice(("python", "gcc")), "maxline": rng.choice((1, 2, 50, 50)), "max_exec": rng.choice((0, 0, 1, 3))}
+        r = jitrun.Run(cfg["backend"], code, st, maxline=cfg["maxline"], max_exec=cfg["max_exec"])
+        cur = bytearray(code)
+
+        def imm_at(lbl, k):
+            base = labels[lbl] - jitrun.CODE
+            pat = (imms[1 + "ABC".index(lbl)] & 0xFFFFFFFF).to_bytes(4, "little")
+            i = bytes(code).find(pat, base, base + 8)
+            return jitrun.CODE + i + k
+
+        for n, act in enumerate([None] + hist):
+            # the state is restored BEFORE the host write: restoring clears the exception flags, among them the pending
+            # EXCEPT_CODE_AUTOMOD a host write into translated code leaves for the next run
+            r.reset_state()
+            if act is not None:
+                if act[0] == "jmp":
+                    addr = labels["jsite"] + 1
+                    val = (labels[act[1]] - (labels["jsite"] + 2)) & 0xFF
+                else:
+                    addr, val = imm_at(act[1], act[2]), act[3]
+                r.j.vm.set_mem(addr, bytes([val]))
+                cur[addr - jitrun.CODE] = val
+            r.limit_steps()
+            try:
+                res = r.go()
+            except Exception as ex:     # noqa
+                return (False, "configuration %s, round %d (%s): the run raises %s: %s" % (cfg, n, act, type(ex).__name__, str(ex)[:120]), True)
+            ref = jitrun.Run("python", bytes(cur), st)
+            ref.reference_mode()
+            ref.go()
+            d = jitrun.diff_state(r.state(), ref.state(), "the run on the patched jitter", "a fresh jitter on the same bytes")
+            if d:
+                return (False, "configuration %s, round %d after %s (history %s): %s" % (cfg, n, act, hist[:n], d), True)
+        return (True, "", True)
+
+
 def targets(tier):
-    return chunked(SmcCases, "C22/self-modifying", 16, tier)
+    return chunked(SmcCases, "C22/self-modifying", 16, tier) + chunked(HistoryCases, "C22/host-history", 16, tier)
 
